@@ -193,6 +193,8 @@ MUTANTS = [
     ('strindex', STRT, 'let ind = CharIndex(i.unsigned_abs() as usize);', 'let ind = CharIndex((-i) as usize);', 'at'),
     ('strindex', STRT, 'Ok(heap.alloc(self.as_bytes()[(len_chars - ind).0] as char))', 'Ok(heap.alloc(self.as_bytes()[len_chars.0] as char))', 'at'),
     ('strindex', STRT, 'if ind > len_chars {', 'if ind >= len_chars {', 'C01.str.at.ok_iff'),
+    ('seqindex', TUPV, '        for x in self.content() {\n            if x.equals(other)? {\n                return Ok(true);', '        for x in self.content() {\n            if !x.equals(other)? {\n                return Ok(true);', 'C01.tuple.is_in'),
+    ('seqindex', LISTV, '        for x in self.0.content().iter() {\n            if x.equals(other)? {\n                return Ok(true);\n            }\n        }\n        Ok(false)', '        for x in self.0.content().iter() {\n            if x.equals(other)? {\n                return Ok(true);\n            }\n        }\n        Ok(self.0.content().len() > 3)', 'C01.list.is_in.false'),
     ('seqindex', TUPV, '        let i = convert_index(index, self.len() as i32)? as usize;\n        Ok(self.content()[i].to_value())', '        let i = convert_index(index, self.len() as i32)? as usize;\n        Ok(self.content()[i / 2].to_value())', 'C01.tuple.at.elem'),
     ('seqindex', TUPV, '    fn length(&self) -> crate::Result<i32> {\n        Ok(self.len() as i32)', '    fn length(&self) -> crate::Result<i32> {\n        Ok(self.len() as i32 - 1)', 'length'),
     ('seqindex', TUPV, '    fn to_bool(&self) -> bool {\n        self.len() != 0', '    fn to_bool(&self) -> bool {\n        self.len() > 1', 'C01.tuple.to_bool'),
